@@ -160,12 +160,14 @@ def index_checks(chk, rows, rng, quick, L, only_n=None):
         accepted = rows[(n, ks[0])]["accepted"]
         # ---- size limit
         if not accepted:
-            try:
-                st.generate_hilbert_space(n)
-                chk.violation("generate_hilbert_space:limit:accepted-%d" % n, dict(n=n))
-            except ValueError:
-                chk.nontriv(("refused", n))
-            chk.evaluations += 1
+            import numpy as _np
+            for size in (n, _np.int64(n)):               # the size as a Python int and as a numpy integer
+                try:
+                    st.generate_hilbert_space(size)
+                    chk.violation("generate_hilbert_space:limit:accepted-%d" % n, dict(n=n, size_type=type(size).__name__))
+                except ValueError:
+                    chk.nontriv(("refused", n))
+                chk.evaluations += 1
             continue
         space = None
         if n <= full_max:
@@ -187,6 +189,19 @@ def index_checks(chk, rows, rng, quick, L, only_n=None):
                 # the default size is the number of visible units
                 if n <= 6 and not torch.equal(st.generate_hilbert_space(), space):
                     chk.violation("generate_hilbert_space:default-size", dict(n=n))
+                # an explicit size other than the state's own, as a Python int and as numpy integers (what
+                # (basis != "Z").sum() or len-arithmetic on arrays hands over)
+                m = n - 1
+                if 1 <= m <= 8 and len(by_n.get(m, ())) == 2 ** m:
+                    import numpy as _np
+                    want_m = [rows[(m, k)]["row"] for k in range(2 ** m)]
+                    for size in (m, _np.int64(m), _np.int32(m), _np.array(m)[()]):
+                        chk.evaluations += 1
+                        got_m = st.generate_hilbert_space(size)
+                        if tuple(got_m.shape) != (2 ** m, m) or got_m.to(torch.int64).tolist() != want_m:
+                            chk.violation("generate_hilbert_space:size-argument",
+                                          dict(state_sites=n, size=m, size_type=type(size).__name__, shape=tuple(got_m.shape)))
+                            break
                 # the documented optional device argument, in every form a device can be named
                 if n <= 8:
                     for dev in ("cpu", torch.device("cpu"), st.device):
